@@ -1,0 +1,66 @@
+/*
+ * Copyright (C) 2024 Nuts community
+ *
+ * This program is free software: you can redistribute it and/or modify
+ * it under the terms of the GNU General Public License as published by
+ * the Free Software Foundation, either version 3 of the License, or
+ * (at your option) any later version.
+ *
+ * This program is distributed in the hope that it will be useful,
+ * but WITHOUT ANY WARRANTY; without even the implied warranty of
+ * MERCHANTABILITY or FITNESS FOR A PARTICULAR PURPOSE.  See the
+ * GNU General Public License for more details.
+ *
+ * You should have received a copy of the GNU General Public License
+ * along with this program.  If not, see <https://www.gnu.org/licenses/>.
+ *
+ */
+
+package discovery
+
+import (
+	"context"
+	"encoding/json"
+	"testing"
+
+	"github.com/lestrrat-go/jwx/v2/jwt"
+	"github.com/nuts-foundation/go-did/vc"
+	"github.com/nuts-foundation/nuts-node/storage"
+	"github.com/stretchr/testify/assert"
+	"github.com/stretchr/testify/require"
+	"go.uber.org/mock/gomock"
+)
+
+// One credential can fulfil several Input Descriptors; Match then returns it once per descriptor.
+// The presentation must still consist of all and only the credentials that fulfil the definition.
+func Test_oneCredentialForSeveralInputDescriptors(t *testing.T) {
+	storageEngine := storage.NewTestStorageEngine(t)
+	require.NoError(t, storageEngine.Start())
+	var both vc.VerifiableCredential
+	require.NoError(t, json.Unmarshal([]byte(`{"@context":["https://www.w3.org/2018/credentials/v1"],"id":"did:example:authority#both",
+		"type":["VerifiableCredential","TestCredential"],"issuer":"did:example:authority","issuanceDate":"2024-01-01T00:00:00Z",
+		"credentialSubject":{"id":"did:example:alice","authServerURL":"https://example.com/oauth2/alice"}}`), &both))
+	unrelated := createCredential(unsupportedDID, unsupportedDID, nil, nil)
+	setup := func(t *testing.T) *Module {
+		m, testContext := setupModule(t, storageEngine, func(module *Module) {
+			def := module.allDefinitions[testServiceID]
+			def.PresentationDefinition.Format = nil
+			module.allDefinitions[testServiceID] = def
+			module.serverDefinitions[testServiceID] = def
+		})
+		testContext.verifier.EXPECT().VerifyVP(gomock.Any(), gomock.Any(), gomock.Any(), gomock.Any()).AnyTimes()
+		return m
+	}
+	present := func(creds ...vc.VerifiableCredential) vc.VerifiablePresentation {
+		return createPresentationCustom(aliceDID, func(claims map[string]interface{}, _ *vc.VerifiablePresentation) {
+			claims[jwt.AudienceKey] = []string{testServiceID}
+		}, creds...)
+	}
+	t.Run("the credential alone is a conforming presentation", func(t *testing.T) {
+		assert.NoError(t, setup(t).Register(context.Background(), testServiceID, present(both)))
+	})
+	t.Run("an unrelated credential next to it is refused", func(t *testing.T) {
+		assert.ErrorIs(t, setup(t).Register(context.Background(), testServiceID, present(both, unrelated)), errPresentationDoesNotFulfillDefinition)
+		assert.ErrorIs(t, setup(t).Register(context.Background(), testServiceID, present(unrelated, both)), errPresentationDoesNotFulfillDefinition)
+	})
+}
